@@ -18,7 +18,7 @@ MODEL_PLAN = {
 PROPS = ["C13", "C14", "C15", "C16"]
 
 EXACT = "cx,rect,cxmix,cxshift,cxabut,cxsub,frames"
-ROUND = "aff-cx,aff-cxmix,aff-cxshift,lat"
+ROUND = "aff-cx,aff-cxmix,aff-cxshift,lat,tfan,fan"
 
 CLAUSES = {"C13": ["fq", "sub"], "C14": ["cls"], "C15": ["evo", "sego"]}
 INVS = {"fq": "C13_QueueFilling", "sub": "C13_PlanarSubdivision", "cls": "C14_Classification", "evo": "C15_EventOrder", "sego": "C15_SegmentOrder",
@@ -36,7 +36,8 @@ ASSUME = [
 def plan(prop, tier):
     q = tier == "quick"
     if prop == "C13":
-        return [("f64", EXACT + "," + ROUND, 90 if q else 900, 3 if q else 4, 70 if q else 110, 12), ("f32", EXACT, 20 if q else 200, 3, 60, 12), ("tri", 2, 840, 9 if q else 1)]
+        return [("f64", EXACT + "," + ROUND, 90 if q else 900, 3 if q else 4, 70 if q else 110, 12), ("f32", EXACT, 20 if q else 200, 3, 60, 12),
+                ("f64", "tfan,fan,tfan", 90 if q else 900, 3, 60, 12), ("tri", 2, 840, 9 if q else 1)]
     if prop == "C14":
         return [("f64", EXACT + ",cx,rect", 110 if q else 1100, 3 if q else 4, 70 if q else 110, 6), ("f32", EXACT, 20 if q else 200, 3, 60, 6), ("tri", 2, 840, 9 if q else 1)]
     if prop == "C15":
@@ -190,6 +191,39 @@ def run_c16(tier, seed, t0):
             log("[C16] lattice %dx%d %s: %d argument tuples replayed through possible_intersection, judged by TLC: %d failures" % (n + 1, n + 1, tag, len(rl), len(fails)))
             os.remove(recs)
         os.remove(tuples)
+    # float pass: random float pairs meeting at / within a few ulps of an end point; float-decidable clauses only
+    nfl = 60000 if tier == "quick" else 1500000
+    fpath = os.path.join(wd, "float.ndjson")
+    vlib.vh(["float-pi", "--count", nfl, "--seed", seed], fpath)
+    cfg3 = "SPECIFICATION Spec\nINVARIANTS\n C16_FloatContainmentAndCommonPoint\n N2b_NoDivisionBump\nCHECK_DEADLOCK TRUE\n"
+    out3, dt3 = vlib.run_tlc("TracePIFloat.tla", cfg3, os.path.join(wd, "trfloat"), env={"TRACEFILE": fpath}, timeout=6000)
+    res3 = vlib.parse_tlc(out3, {"C16_FloatContainmentAndCommonPoint", "N2b_NoDivisionBump"})
+    if res3["tool_errors"]:
+        raise ToolError("TracePIFloat: %s" % res3["tool_errors"][:3])
+    ff = {(k, int(i)) for (k, i) in re.findall(r'<<"PIFLOATFAIL", "(\w+)", (\d+)>>', out3)}
+    known = {k.get("id"): k for k in vlib.load_known() if k.get("status") == "open"}
+    frecs = None
+    nb = len([1 for (k, i) in ff if k == "pi_bump"])
+    hard = sorted(i for (k, i) in ff if k == "pi")
+    if nb and "N2b" not in known:
+        hard += sorted(i for (k, i) in ff if k == "pi_bump")
+    if hard:
+        frecs = {r["id"]: r for r in vlib.load_sessions(fpath)}
+        os.makedirs(os.path.join(vlib.OUT, "replays"), exist_ok=True)
+        for fid in hard[:10]:
+            p = os.path.join(vlib.OUT, "replays", "C16-float-%d.json" % fid)
+            json.dump(frecs[fid], open(p, "w"))
+            log("VIOLATION property=C16 replay=%s" % p)
+            log("  float pair %s" % json.dumps(frecs[fid])[:300])
+        nviol += len(hard)
+    if nb and "N2b" in known:
+        log("KNOWN-FINDING: property=C16 %s (%d of %d float pairs)" % (known["N2b"]["what"], nb, nfl))
+    tot += nfl
+    tot_states += res3["distinct"]
+    tot_trans += res3["generated"]
+    per.append({"float_pairs": nfl, "failures": len(hard), "bump_known_finding": nb, "tlc_s": round(dt3, 1)})
+    log("[C16] float pass: %d float pairs judged on containment / common point: %d failures, %d documented one-ulp bumps" % (nfl, len(hard), nb))
+    os.remove(fpath)
     cov = {"states": tot_states, "transitions": tot_trans, "traces_validated_against_impl": tot - nviol, "samples": samples,
            "evaluations": tot, "distinct_nontrivial": tot, "exhaustive": True, "per_lattice": per,
            "rule": "every ordered pair of non-degenerate lattice segments (left end first), scaled by its own determinant, with operand/in-out flag combinations for overlapping pairs; each tuple is one real call of possible_intersection"}
